@@ -20,6 +20,8 @@ CLAIMED = {
          "DESIGN.md 5/C07", "well-formedness/fresh-id theorems (Coq) + correspondence of duplicates + equality/independence/aliasing oracle"),
  "C19": ("PARTIAL (theorems pending in this session: see DESIGN.md). Every derived network is modelled as the code builds it (Model/Derived.v: subhypergraph with node/edge selections and keep_isolates, dual, <<, cut_to_order/k_skeleton, cleanup/relabelling/largest component with in_place=False, from_max_simplices, complement as a set of sets); Proofs/Build.v proves that filling a network through add_edges_from (format 4) yields exactly the listed edges, nodes and attributes (build_edges_effect), the lemma on which the characterisations rest. On every run the model's derived network is compared with the implementation's (full snapshot) and the oracle checks the set-theoretic definition of the property text, including all 32 cleanup flag sets and the dual involution.",
          "DESIGN.md 5/C19", "model of each derived network + build lemma (Coq) + correspondence + set-theoretic oracle"),
+ "C06": ("Theorems: C06_degree_memberships, C06_size_members, C06_handshake and C06_handshake_order (double counting, for every state satisfying the C01 invariant, hence every reachable state), C06_formats_agree, C06_filterby_exact (all 7 modes), C06_isolates_singletons_empty, C06_neighbors_spec, C06_lookup_spec, C06_maximal_spec (membership-intersection test <-> no strict superset). Liveness is by construction of the model (a statistic is a function of the current state) and is checked against the code by the oracle, which holds views and stats across mutations. PARTIAL: duplicates, filterby_attr, neighbors(s>1), the directed statistics and the pandas/numpy containers are covered by correspondence/oracle only; the known open finding about directed neighbors/duplicates/lookup is recorded in known_findings.json.",
+         "DESIGN.md 5/C06", "definitional + double-counting + filter exactness theorems (Coq) + query correspondence + definition/liveness oracle"),
 }
 NOTE = ("trusted: Coq 8.16.1 kernel and vm_compute; no axioms (Print Assumptions: Closed under the global context); "
         "harness generators/serialiser/observation; CPython containers and numeric libraries are environment "
